@@ -33,7 +33,8 @@ TABLE = {
  'C17': dict(property='C17', breaks='de-chunking for HTTP/2 and HTTP/3 clients reads 2 bytes of chunk suffix even when one is already buffered',
              needs='HTTP/2 or HTTP/3 client, chunked origin response cut exactly between the CR and LF closing a data chunk, with at least one more byte in the piece that starts with the LF', checks=['C17']),
  'C09': dict(property='C09', breaks='v4 responded_echo_request parses the quoted echo without the lower-bound length check: panic in the ICMP listener task',
-             needs='an ICMPv4 error whose quoted IPv4 header carries options (IHL >= 6) and whose quote ends 1-7 bytes after that header with first byte 8', checks=['C09', 'C11']),
+             needs='an ICMPv4 error whose quoted IPv4 header carries options (IHL >= 6) and whose quote ends 1-7 bytes after that header with first byte 8', checks=['C09', 'C11'],
+             strengthened='missed at first by C09 and C11 (no input had a quote truncated 1-7 bytes into the echo header *behind IP options*); C09 gained the family "errors quoting a packet behind every IPv4 option length / IPv6 extension header with 0-12 bytes of quoted message left", C11 the matching must-not-report cases. Caught by both afterwards.'),
  'C12': dict(property='C12', breaks='early give-up guard looks at byte 5 with only 5 bytes buffered: a complete ClientHello is reported as having no client random',
              needs='a read that returns exactly the 5-byte record header and nothing else (first flight cut at offset 5 with a delay, or byte-at-a-time with delays)', checks=['C12']),
  'C13': dict(property='C13', breaks='the registry authenticator encodes the configured pair with the URL-safe base64 alphabet: pairs whose standard base64 contains + or / are rejected (407) although configured',
@@ -41,13 +42,16 @@ TABLE = {
  'C15': dict(property='C15', breaks='a selected authentication method the endpoint did not offer is treated as success (username/password sent into an extended-auth dialogue and vice versa)',
              needs='credentials present and the server selecting exactly the other authenticating method byte (0x80 when 0x02 was offered, or 0x02 when 0x80 was offered)', checks=['C15']),
  'C16': dict(property='C16', breaks='inbound_traffic_bytes counts UDP datagrams the forwarder dropped (send failed)',
-             needs='a _udp2 flow whose send on the connected socket fails (second datagram to a closed port: ECONNREFUSED) while the flow stays alive', checks=['C16']),
+             needs='a _udp2 flow whose send on the connected socket fails (second datagram to a closed port: ECONNREFUSED) while the flow stays alive', checks=['C16'],
+             strengthened='missed at first: the L2 histories cannot tell from outside which datagram a socket refused. Added hook run_udp_pipe_scripted (scripted forwarder side whose per-datagram outcome the harness chooses) and the C16 UDP byte-accounting part: counter callback totals must equal the bytes of datagrams actually sent / delivered. Caught afterwards.'),
  'C18': dict(property='C18', breaks='upload bound checked in whole MiB (integer division): Content-Length from 120 MiB + 1 to 121 MiB - 1 answered 200 instead of 400',
              needs='an upload whose Content-Length lies in (120 MiB, 121 MiB)', checks=['C18']),
  'C19': dict(property='C19', breaks='the ping handler drops its completion guard at once (`let (.., _) =`): completion() no longer waits for ping sessions',
-             needs='a ping session still winding down when completion() is awaited, and an observer comparing "completion returned" with "handler finished"', checks=['C19']),
+             needs='a ping session still winding down when completion() is awaited, and an observer comparing "completion returned" with "handler finished"', checks=['C19'],
+             strengthened='missed at first (the handlers part compared counts 20 ms after completion(), by which time the ping handler had finished too; with the new registration barrier the rounds became inconclusive). Added hook Shutdown::verif_participants and the verdict: every session handler that holds a notification handle must hold a completion guard. Caught afterwards.'),
  'C20': dict(property='C20', breaks='the auth-info error text quotes the "scheme" of a non-Basic Proxy-Authorization value: for a value without a space that is the whole token',
-             needs='a tunnel request whose Proxy-Authorization value has no space before the secret (bare base64 token, `Basic:tok`, `Basic<TAB>tok`); logged at debug by tunnel.rs', checks=['C20']),
+             needs='a tunnel request whose Proxy-Authorization value has no space before the secret (bare base64 token, `Basic:tok`, `Basic<TAB>tok`); logged at debug by tunnel.rs', checks=['C20'],
+             strengthened='missed at first: the error-path sweep had no Proxy-Authorization value without a space between scheme and secret. Added bare token, `Basic:tok`, `Basic<TAB>tok`, `Basictok`, `Negotiate,tok`. Caught afterwards. (The seeding agent also pointed at an existing leak, ConnectionMeta Debug: see known_findings.json fixed C20.)'),
 }
 def sigs(name, check, tier='quick'):
     p = f'{V}/.work/seed-{name}-{check}-{tier}.out'
